@@ -280,6 +280,104 @@ Inductive needed (vars : varenv) (g : genome) : locus -> locus -> Prop :=
 | needed_one : forall l la, asks vars g l la -> needed vars g l la
 | needed_more : forall l la lb, asks vars g l la -> needed vars g la lb -> needed vars g l lb.
 
+(* ------------------------------------------------------------------ *)
+(** * penalty() and teams                                              *)
+
+(* symbol::penalty_nvi:  default (symbol.cc) returns 0;
+   comparison_function_penalty (comp_penalty.h):
+     (fetch_index(0) == fetch_index(1)) + (fetch_index(2) == fetch_index(3));
+   PenEq12: fetch_index(1) == fetch_index(2) (three-argument selection) *)
+Inductive pen_kind := PenZero | PenCmp4 | PenEq12.
+
+Section Penalty.
+Variable g : genome.
+(* index_t fetch_index(unsigned i) const { const gene &g(( *prg_)[ip_]); return g.args[i]; }
+   None: no such argument (the C++ reads past the gene's arguments) *)
+Definition fetch_index (i : nat) (st : state) : option nat :=
+  match gene_at g (ip st) with Some ge => nth_error (g_args ge) i | None => None end.
+
+Definition b2z (b : bool) : Z := if b then 1%Z else 0%Z.
+Definition penalty_sym (k : pen_kind) (st : state) : option Z :=
+  match k with
+  | PenZero => Some 0%Z
+  | PenCmp4 =>
+      match fetch_index 0 st, fetch_index 1 st, fetch_index 2 st, fetch_index 3 st with
+      | Some a, Some b, Some c, Some d => Some (b2z (Nat.eqb a b) + b2z (Nat.eqb c d))%Z
+      | _, _, _, _ => None
+      end
+  | PenEq12 =>
+      match fetch_index 1 st, fetch_index 2 st with
+      | Some a, Some b => Some (b2z (Nat.eqb a b))
+      | _, _ => None
+      end
+  end.
+
+(* double penalty_locus(const locus &ip) { ip_ = ip; return ( *prg_)[ip_].sym->penalty(this); }
+   [pk]: which penalty function the symbol with a given opcode overrides *)
+Definition penalty_locus (pk : Z -> pen_kind) (l : locus) (st : state) : option Z * state :=
+  let st1 := set_ip st l in
+  (match gene_at g l with
+   | Some ge => penalty_sym (pk (s_opcode (g_sym ge))) st1
+   | None => None
+   end, st1).
+(* penalty_nvi() { return penalty_locus(prg_->best()); } *)
+Definition penalty (pk : Z -> pen_kind) (st : state) : option Z * state := penalty_locus pk (best g) st.
+End Penalty.
+
+(* team<i_mep> has no interpreter of its own: reg_lambda_f<team<T>> keeps one
+   reg_lambda_f_storage (individual + src_interpreter) per member
+   (detail/lambda_f.h) and basic_reg_lambda_f::eval(e, true_type) runs the
+   members in order on the same input:
+     for (const auto &core : team_) { const auto res(core.run(e.input));
+       if (has_value(res)) avg += (lexical_cast<D_DOUBLE>(res) - avg) / ++count; }
+     if (count > 0.0) return avg;  return {};
+   An exception in a member leaves the loop (later members are not run). *)
+Definition lexical_double (v : value) : option f64 :=
+  match v with VDouble f => Some f | VInt z => Some (F64.of_Z z) | _ => None end.
+Definition f64_one : f64 := F64.of_bits 0x3FF0000000000000.
+
+Fixpoint team_eval (ms : list (genome * state)) (ex : list value) (avg count : f64)
+  : mres * list state :=
+  match ms with
+  | [] => (if F64.gtb count F64.zero then RVal (VDouble avg) else RVal VVoid, [])
+  | (g, st) :: r =>
+      let (res, st') := run_ex true g ex st in
+      match res with
+      | RVal v =>
+          if has_value v then
+            match lexical_double v with
+            | Some x =>
+                let c := F64.add count f64_one in
+                let (o, sts) := team_eval r ex (F64.add avg (F64.div (F64.sub x avg) c)) c in
+                (o, st' :: sts)
+            | None => (RStuck, st' :: map snd r)       (* strings: not modelled *)
+            end
+          else let (o, sts) := team_eval r ex avg count in (o, st' :: sts)
+      | e => (e, st' :: map snd r)
+      end
+  end.
+Definition team_run (ms : list (genome * state)) (ex : list value) : mres * list state :=
+  team_eval ms ex F64.zero F64.zero.
+
+(* the same fold over the denotations of the members' active trees *)
+Fixpoint team_den (ts : list tree) (vars : varenv) (avg count : f64) : mres :=
+  match ts with
+  | [] => if F64.gtb count F64.zero then RVal (VDouble avg) else RVal VVoid
+  | t :: r =>
+      match den vars t with
+      | Val v =>
+          if has_value v then
+            match lexical_double v with
+            | Some x =>
+                let c := F64.add count f64_one in
+                team_den r vars (F64.add avg (F64.div (F64.sub x avg) c)) c
+            | None => RStuck
+            end
+          else team_den r vars avg count
+      | o => res_of_outcome o
+      end
+  end.
+
 (* the denotation of the program rooted at locus [l] of a genome *)
 Definition den_locus (vars : varenv) (g : genome) (l : locus) : option outcome :=
   option_map (den vars) (tree_of (S (rows g)) g l).
